@@ -1,7 +1,7 @@
 (* The only file with extraction directives.  ExtrOcamlBasic maps bool, option, unit, list, prod,
    sumbool, sumor to OCaml's; ExtrOcamlString maps ascii to char and string to char list.
    Numbers stay Coq's positive / Z / nat (no Extract Constant, no OCaml int). *)
-From Ctap Require Import Typed WellTyped Within Procs Arb ArbTy Tables ProcTables.
+From Ctap Require Import Typed WellTyped Within Procs Arb ArbTy Tables ProcTables PlainDecls.
 Require Import ExtrOcamlBasic ExtrOcamlString.
 Extraction Language OCaml.
 Extraction "model.ml"
@@ -9,4 +9,4 @@ Extraction "model.ml"
   apdu_parse u2f_request_of u2f_serialize u2f_pubkey op_of_u8 u8_of_op vendor_of_u8 dispatch
   truncate utf8_valid floor_char_boundary skip_item status_of_cerr status_invalid_command
   match_u8 match_var bytes_of_string Z.add Z.mul Z.sub Z.div Z.modulo Z.of_nat Z.to_nat
-  Z.eqb Z.ltb Z.leb lookup type_fuel arb_rp arb_user arb_hmac arb_filtered arb_subparams arb_descref wt env_rt canon_val within arb_named arb_ctap1_register arb_ctap1_authenticate.
+  Z.eqb Z.ltb Z.leb lookup type_fuel arb_rp arb_user arb_hmac arb_filtered arb_subparams arb_descref wt env_rt canon_val within arb_named arb_ctap1_register arb_ctap1_authenticate arb_ctap2_request arb_ctap1_request arb_authenticator_request spec_request_enums.
